@@ -6,7 +6,7 @@ use color_eyre::{Report, Result};
 use serde_json::Value;
 
 use utils::pmtree::tree::Key;
-use utils::pmtree::{Database, Hasher};
+use utils::pmtree::{Database, DatabaseErrorKind, Hasher, PmtreeErrorKind};
 use utils::*;
 
 use crate::circuit::Fr;
@@ -142,7 +142,12 @@ impl ZerokitMerkleTree for PmTree {
         let tree_loaded = pmtree::MerkleTree::load(config.clone().0);
         let tree = match tree_loaded {
             Ok(tree) => tree,
-            Err(_) => pmtree::MerkleTree::new(depth, config.0)?,
+            // nothing is stored at this location yet: create the tree
+            Err(PmtreeErrorKind::DatabaseError(DatabaseErrorKind::CannotLoadDatabase)) => {
+                pmtree::MerkleTree::new(depth, config.0)?
+            }
+            // an existing tree that cannot be read must not be re-initialised
+            Err(e) => return Err(Report::msg(e.to_string())),
         };
 
         // A loaded tree already holds leaves: the positions below the high-water mark whose stored
